@@ -174,7 +174,7 @@ func (cs *caseState) closeHoles() {
 // (VerifPending = TryLock). A healthy layer holds resMu for map operations only, so a probe fails now and then at most;
 // a long unbroken run of failures means the mutex is held across the stalled send. Counted in heartbeats, not in time.
 func (cs *caseState) lockSampler() {
-	var streak [maxConns]int
+	var streak [maxNodes]int
 	for {
 		select {
 		case <-cs.closing:
